@@ -186,6 +186,8 @@ class ModGen:
         self.temp_names = temp_names      # probability that a module uses reserved temporary names (.lc<N>, t<N>)
         self.lc_pool = []
         self.treg = False
+        self.end_labels = 0.4             # probability that a generated function ends in labels (1..3, with or without a ret before)
+        self.last_tail = []
         self.loaded = False
         self.prev_strings = []
         self.nlabels = label_base      # labels made so far in the context
@@ -503,14 +505,45 @@ class ModGen:
             else:
                 o = [self.operand(fn, m, out) for m, out in ops]
             self.emit('insn %s %s' % (nm, ' '.join(o)))
-        for l in list(fn['labels']):
-            if l not in fn['placed']:
-                self.place_label(fn, l)
+        # the end of the function: `ret` last | `ret` [jmp] followed by 1..3 labels.  Labels that END a
+        # function take their own way through both readers (collected while looking for the next insn, appended at
+        # `endfunc`); they are the same objects as the ones branches / switch / laddr operands and lref items refer to.
+        unplaced = [l for l in fn['labels'] if l not in fn['placed']]
+        ntail = rng.choice([1, 1, 2, 3]) if rng.random() < self.end_labels else 0
+        tail = []
+        while len(tail) < ntail:
+            if unplaced and rng.random() < 0.7:
+                tail.append(unplaced.pop(rng.randrange(len(unplaced))))
+            else:
+                l = self.new_labels(1)[0]
+                fn['labels'].append(l)
+                tail.append(l)
+        for l in unplaced:
+            self.place_label(fn, l)
+        for l in tail:
+            # referenced from inside the function (an lref item may follow the function, see gen_module)
+            k = rng.random()
+            if k < 0.4:
+                self.emit('insn jmp l:%d' % l)
+            elif k < 0.6 and regs['int']:
+                self.emit('insn laddr r:%s l:%d' % (rng.choice(regs['int']), l))
+            elif k < 0.75:
+                self.emit('insn switch i:%d %s' % (rng.randint(0, 2), ' '.join('l:%d' % rng.choice(tail + fn['labels'][:2])
+                                                                             for _ in range(rng.choice([1, 3])))))
+            elif k < 0.9:
+                self.emit('insn bne l:%d i:%d i:%d' % (l, rng.randint(0, 3), rng.randint(0, 3)))
+        # (a function without any ret gets one appended by MIR_finish_func unless its last insn is a jmp: a function that ends
+        # in labels has its ret in front of them)
         rv = []
         for t in res:
             m = t if t in ('f', 'd', 'ld') else 'int'
             rv.append(self.operand(fn, m, False))
         self.emit('insn ret ' + ' '.join(rv))
+        if tail and rng.random() < 0.3:
+            self.emit('insn jmp l:%d' % rng.choice(tail + fn['labels'][:1]))
+        for l in tail:
+            self.place_label(fn, l)
+        self.last_tail = tail
         self.emit('endfunc')
         return name
 
@@ -589,6 +622,62 @@ class ModGen:
         E('insn add r:t r:t m:u8:0:s:-:1:A:-')
         E('insn ret r:t r:y')
         E('endfunc')
+        # helper whose last insns are labels: the labels are targets of a branch, of laddr and of lref tables in front of and
+        # behind the function; the tables are read at run time (distance of two labels of one function: the same number in
+        # every context that holds the same function)
+        endl = None
+        if rng.random() < 0.75:
+            endl, pe, tab = self.fresh('endl'), self.fresh('pe'), self.fresh('ltab')
+            nt = rng.choice([1, 1, 2, 3])
+            ls = self.new_labels(1)[0]
+            tl = self.new_labels(nt)
+            fin, body = self.new_labels(2)
+            before = rng.random() < 0.6
+            shape = rng.choice(['ret-last', 'jmp-last'])
+            if before:
+                E('lref %s %d %d 0' % (tab, tl[0], ls))
+            E('proto %s 0 i64 i64:x' % pe)
+            E('func %s 0 i64 i64:x' % endl)
+            for r in ('a', 'b', 'r'):
+                E('local i64 %s' % r)
+            E('label %d' % ls)
+            E('insn mov r:r r:x')
+            if shape == 'jmp-last':
+                E('insn jmp l:%d' % body)
+                E('label %d' % fin)
+                E('insn ret r:r')
+                E('label %d' % body)
+            if before:
+                E('insn mov r:a ref:%s' % tab)
+                E('insn mul r:r r:r i:31')
+                E('insn add r:r r:r m:i64:0:a:-:1:-:-')
+            for l in tl:
+                k = rng.choice(['br', 'laddr', 'switch', 'none'])
+                if k == 'br':
+                    E('insn bgt l:%d r:x i:1000' % l)          # never taken: x < 1000
+                elif k == 'laddr':
+                    E('insn laddr r:a l:%d' % l)
+                    E('insn laddr r:b l:%d' % ls)
+                    E('insn sub r:a r:a r:b')
+                    E('insn mul r:r r:r i:31')
+                    E('insn add r:r r:r r:a')
+                elif k == 'switch':
+                    nx = self.new_labels(1)[0]
+                    E('insn mov r:b i:0')
+                    E('insn switch r:b l:%d l:%d' % (nx, l))        # always the first
+                    E('label %d' % nx)
+            after = (not before) or rng.random() < 0.5
+            tab2 = self.fresh('ltab')
+            if shape == 'jmp-last':
+                E('insn jmp l:%d' % fin)
+            else:
+                E('insn ret r:r')
+            for l in tl:
+                E('label %d' % l)
+            E('endfunc')
+            if after:
+                E('lref %s %d %d %d' % (tab2, rng.choice(tl), ls, rng.choice([0, 8])))
+            self.endl = (endl, pe, tab2 if after else None)
         if rng.random() < 0.5:
             E('export main')
             self.exported.add('main')
@@ -605,6 +694,16 @@ class ModGen:
             return l
         E('insn mov r:acc i:%d' % interesting_ints(rng))
         E('insn mov r:p ref:%s' % bname)
+        if endl is not None:
+            endl, pe, tab2 = self.endl
+            E('insn call ref:%s ref:%s r:t i:%d' % (pe, endl, rng.randint(0, 999)))
+            E('insn mul r:acc r:acc i:1000003')
+            E('insn add r:acc r:acc r:t')
+            if tab2 is not None:
+                # filled when the code of the function exists (after its first call)
+                E('insn mov r:q ref:%s' % tab2)
+                E('insn mul r:acc r:acc i:1000003')
+                E('insn add r:acc r:acc m:i64:0:q:-:1:-:-')
 
         def mix(src):
             E('insn mul r:acc r:acc i:1000003')
@@ -718,7 +817,15 @@ class ModGen:
             elif k == 'alias':
                 E('insn mov m:i32:56:p:-:1:A:N r:acc')
                 mix('m:i32:56:p:-:1:-:N')
-        E('insn ret r:acc')
+        if rng.random() < 0.3:
+            # main itself ends in a label (target of a branch that is not taken)
+            e = self.new_labels(1)[0]
+            E('insn mov r:ix i:0')
+            E('insn bt l:%d r:ix' % e)
+            E('insn ret r:acc')
+            E('label %d' % e)
+        else:
+            E('insn ret r:acc')
         E('endfunc')
         self.items.append(('main', 'func'))
 
@@ -837,6 +944,16 @@ class ModGen:
                 placed = [int(s.split()[1]) for s in self.stmts[before:] if s.startswith('label ')]
                 if placed:
                     lref_cands.append(placed)
+                if self.last_tail and rng.random() < 0.5:
+                    # a table over the labels that end the function (e.g. its code size: end label - first label)
+                    l1 = rng.choice(self.last_tail)
+                    l2 = rng.choice(placed) if rng.random() < 0.6 else None
+                    if rng.random() < 0.3 and l2 is not None:
+                        l1, l2 = l2, l1
+                    n = self.fresh('le') if rng.random() < 0.7 else None
+                    self.emit('lref %s %d %s %d' % (n or '-', l1, l2 if l2 is not None else '-', rng.choice([0, 0, 8])))
+                    if n:
+                        self.items.append((n, 'lref'))
             elif k == 'lref' and lref_cands:
                 labs = rng.choice(lref_cands)
                 named = rng.random() < 0.7
